@@ -12,6 +12,8 @@ package participle
 import (
 	"reflect"
 	"strings"
+
+	"github.com/alecthomas/participle/v2/lexer"
 )
 
 func vhC09Parse[G any](cfg vhConfig) {
@@ -54,4 +56,43 @@ func VH_C09_Parse_Canary() {
 	vFreeze(p)
 	p.useLookahead = 2
 	vAssert(!vSymbolic(), "canary: must fail")
+}
+
+// VH_C09_Parse_Mapped: a parser with 1..5 mappers for every token and two
+// typed mappers (Upper on A, a marking Map on B): lexing through it twice
+// gives the same, correct tokens, whatever token types were
+// seen before (a lazily built or cached mapper chain would be shared state).
+func VH_C09_Parse_Mapped() {
+	toks := vhMapStream()
+	id := func(t lexer.Token) (lexer.Token, error) { return t, nil }
+	mark := func(t lexer.Token) (lexer.Token, error) {
+		t.Value = "#" + t.Value
+		return t, nil
+	}
+	opts := []Option{Lexer(&vhMapDef{toks: toks})}
+	n := 1 + vChoose("globals", 5)
+	for i := 0; i < n; i++ {
+		opts = append(opts, Map(id))
+	}
+	opts = append(opts, Upper("A"), Map(mark, "B"))
+	p, err := Build[vgMapped](opts...)
+	vAssert(err == nil, "catalogue grammar must build")
+	// not frozen: the mapper chain lives in variables captured by a closure,
+	// which the native fingerprint behind vFreeze cannot see; history
+	// independence is asserted on the results instead
+	for round := 0; round < 2; round++ {
+		got, lerr := p.Lex("f", strings.NewReader(""))
+		vAssert(lerr == nil && len(got) == len(toks), "C09: lexing through the mappers failed")
+		for i, t := range toks {
+			want := t.Value
+			switch t.Type {
+			case vhTA:
+				want = strings.ToUpper(t.Value)
+			case vhTB:
+				want = "#" + t.Value
+			}
+			vAssert(got[i].Value == want && got[i].Type == t.Type, "C09: a token is mapped differently depending on what the parser mapped before")
+		}
+	}
+	vReach("mapped")
 }
